@@ -29,7 +29,7 @@ NAME = "track"
 DRIVER_SRCS = ["track_driver.cpp"]
 MODEL_FAMILY = "track"
 MODE = "diff"
-BUDGET = {"quick": 400, "thorough": 6000}
+BUDGET = {"quick": 400, "thorough": 20000}
 
 MIN_DT = 0
 KEYS = [1, 2, 3, 5]
